@@ -868,7 +868,7 @@ def collect(env, session=None):
     hi = env.session_marks[session + 1][0] if session + 1 < len(env.session_marks) else len(env.events)
     st = env.session_streams[session]
     return dict(reqs=reqs, handovers=handovers, events=list(env.events[lo:hi]), client_out=list(st.out), outcome=env.outcome,
-                held_at_end=[b.idx for b in env.backends if b.held], client_read=st.pos)
+                held_at_end=[b.idx for b in env.backends if b.held], client_read=st.pos, client_write_failed=st.write_failed)
 
 
 def bvs(h):
@@ -1063,7 +1063,7 @@ def judge(data, script, dec, expect_forward=None, cache_on=False, denied=None, e
                   (show(m[:40]), show(expected[xi][:40]) if xi < len(expected) else 'none outstanding')))
     if rest:
         V.append(('C03', 'H/client-received-partial', 'a partial message was written to the client: %s' % show(rest[:40])))
-    if xi < len(expected) and outcome[0] != 'panic' and not any(e[0] == 'statement_timeout' for e in data['events']):
+    if xi < len(expected) and outcome[0] != 'panic' and not any(e[0] == 'statement_timeout' for e in data['events']) and not data.get('client_write_failed'):
         # (after a statement timeout the pooler answers with its own error instead of the late reply: documented difference)
         V.append(('C03', 'H/reply-not-delivered', 'reply %s to the client\'s own request never reached the client (%d of %d delivered)' % (show(expected[xi][:40]), xi, len(expected))))
     # ---- statistics (C18, the per-session part): the client's reported state follows what it really does, it is unregistered once it
@@ -1095,14 +1095,16 @@ def judge(data, script, dec, expect_forward=None, cache_on=False, denied=None, e
             V.append(('C18', 'H/client-never-unregistered/' + outcome[0], 'the session is over (%s) but the client was never removed from the statistics' % (outcome,)))
         units = [r for r in data['reqs'] if r.get('origin') == 'client' and code_of(r['bytes']) in 'QS']
         if outcome[0] == 'done' and not any(code_of(m) in 'dcf' for m in script) and not any(e[0] in ('statement_timeout',) for e in data['events']):
+            # (a request whose reply could not be written because the client had vanished may or may not have been counted)
+            slack = 1 if data.get('client_write_failed') else 0
             want_q = len(units)
             want_tx = sum(1 for r in units if r.get('status_after') is not None and dec(r['status_after'].z() == ord('I')))
-            if nq != want_q:
+            if not (want_q - slack <= nq <= want_q):
                 V.append(('C18', 'H/query-total', 'the client\'s query total grew by %d for %d requests executed on the servers' % (nq, want_q)))
             # (a Sync the pooler answers itself -- nothing buffered, or everything cached -- may or may not be counted as a transaction:
             # nothing ran on a server, but the client did complete a protocol-level transaction; both readings are accepted)
             own = sum(1 for m in script if code_of(m) == 'S') - sum(1 for r in units if code_of(r['bytes']) == 'S')
-            if not (want_tx <= ntx <= want_tx + max(0, own)):
+            if not (want_tx - slack <= ntx <= want_tx + max(0, own)):
                 V.append(('C18', 'H/transaction-total', 'the client\'s transaction total grew by %d for %d transactions completed on the servers' % (ntx, want_tx)))
     return V
 
